@@ -13,6 +13,7 @@ func init() {
 			ruleJSONProtocol(c)
 			ruleJSONRawString(c)
 			ruleJSONTime(c)
+			ruleJOutBounds(c)
 		},
 	})
 }
